@@ -1,4 +1,5 @@
 import NessaiVerif.Proofs.Flow
+import NessaiVerif.Gen.FlowTrain
 import NessaiVerif.Proofs.FlowReal
 import NessaiVerif.Proofs.FlowTri
 import Mathlib.Tactic.Linarith
@@ -648,5 +649,29 @@ example (rescale : Bool) (z : Fin 2 → ℚ) (base : (Fin 2 → ℚ) → ℚ) :
       = (z, (fpBackwardPass ⟨composite exStack, base⟩ exAffineR none rescale z).2) :=
   (builtin_stack_density_consistent_partial (fun a => a) exStack exStack_builtin base exAffineR rescale z
     (fun _ => affine_rescaling_round_trip _ _ _ (fun _ => by norm_num) _)).2
+
+/-! ### the end of a training: best weights restored, then finalised, then saved -/
+
+/-- the current source performs the three tail operations of `FlowModel.train` in the canonical order (regenerated from
+the source on every run) -/
+theorem train_tail_is_canonical : Gen.FlowTrain.trainTail = FlowTrain.canonical := by decide
+
+/-- **The canonical order is the ONLY order of the three operations that leaves a consistent flow.**  For every
+identifier of the last-epoch weights, of the stale constant and of the best-epoch weights (all different), running the
+tail in the source's order leaves the model with the best weights, a normalisation constant computed for THEM, and a
+weights file holding exactly that; each of the other five orders leaves the model or the file inconsistent (finalise
+before restore: seeded C08-eA; save before finalise: seeded C12-d). -/
+theorem train_tail_good_iff_canonical (last stale best : Nat) (h1 : best ≠ last) (h2 : best ≠ stale) (ops : List FlowTrain.Op)
+    (hp : ops.Perm FlowTrain.canonical) :
+    FlowTrain.Good best (FlowTrain.run best (FlowTrain.St.afterLoop last stale) ops) ↔ ops = FlowTrain.canonical := by
+  have hl : ops.length = 3 := by simpa [FlowTrain.canonical] using hp.length_eq
+  match ops, hl with
+  | [a, b, c], _ =>
+    have ha := hp.subset (List.mem_cons_self ..)
+    cases a <;> cases b <;> cases c <;>
+      simp_all [FlowTrain.canonical, FlowTrain.Good, FlowTrain.run, FlowTrain.step, FlowTrain.St.afterLoop, List.perm_iff_count] <;>
+      omega
+
+example : FlowTrain.Good 1 (FlowTrain.run 1 (FlowTrain.St.afterLoop 0 9) Gen.FlowTrain.trainTail) := by decide
 
 end NessaiVerif.C08
